@@ -48,7 +48,7 @@ func TestGovAction(t *testing.T) {
 	}
 	defer em.Close()
 	w := getWorld()
-	limit := time.Duration(envInt("VERIF_CH_GOV_LIMIT_MS", 2500)) * time.Millisecond
+	limit := time.Duration(envInt("VERIF_CH_GOV_LIMIT_MS", 15000)) * time.Millisecond
 	for _, h := range hs {
 		var a govArgs
 		must(json.Unmarshal(h.Steps[0].Args, &a))
